@@ -580,6 +580,7 @@ func init() {
 		Level:       "model_checking",
 		CPUBudget:   60,
 		WorkerProcs: 4,
+		Workers:     16,
 		WorkerEnv: func(runDir string) []string {
 			return []string{"GORACE=log_path=" + runDir + "/race halt_on_error=0 exitcode=0 history_size=2", "VERIF_RACE_LOG=" + runDir + "/race"}
 		},
